@@ -6,5 +6,5 @@ def treeVariant : OllamaVerif.Stream.Variant := ⟨false, true, true, true⟩
 /-- api.Client returns the scanner's error for a line it cannot hold (F17e) -/
 def treeClientFixed : Bool := true
 /-- a tool call delivered by the done message ends the OpenAI stream with tool_calls (F17f) -/
-def treeFinishFixed : Bool := false
+def treeFinishFixed : Bool := true
 end OllamaVerif.Generated.C17
